@@ -67,25 +67,25 @@ func (e *Engine) exec(st *State, fr *Frame, instr ssa.Instruction) []*State {
 		set(x, PtrV{Key: base.Key + "." + f.Name(), T: f.Type(), Obj: &bb, Field: f.Name()})
 	case *ssa.IndexAddr:
 		idx, iok := e.asInt(st, e.val(st, fr, x.Index))
-		switch b := e.val(st, fr, x.X).(type) {
-		case PtrV: // pointer to array
-			arr, isArr := b.T.Underlying().(*types.Array)
-			if !isArr {
-				e.Check(st, fr, x.Pos(), "B-idx", canonExpr(x), false, "unknown array base")
-				set(x, e.unk())
-				break
+		// a small constant table indexed by a variable: one state per row
+		if n, isTab := e.tableRows(st, fr, x, e.val(st, fr, x.X)); isTab && iok {
+			if k, isK := e.constIndex(st, idx, n); isK {
+				idx = K(k)
+			} else if e.proveLE(st, K(0), idx) && e.proveLT(st, idx, K(int64(n))) {
+				var out []*State
+				for k := 0; k < n; k++ {
+					s2 := st.clone()
+					s2.addEQ(idx, K(int64(k)))
+					if !e.feasible(s2) {
+						continue
+					}
+					e.indexAddr(s2, fr, x, K(int64(k)), true)
+					out = append(out, s2)
+				}
+				return out
 			}
-			ok := iok && e.proveLE(st, K(0), idx) && e.proveLT(st, idx, K(arr.Len()))
-			e.Check(st, fr, x.Pos(), "B-idx", canonExpr(x), ok, fmt.Sprintf("cannot show 0 ≤ %s < %d", e.LinStr(idx), arr.Len()))
-			set(x, PtrV{Key: b.Key + "[" + idx.Key() + "]", Arr: b.Key, Idx: idx, T: arr.Elem()})
-		case SliceV:
-			ok := iok && e.proveLE(st, K(0), idx) && e.proveLT(st, idx, b.Len)
-			e.Check(st, fr, x.Pos(), "B-idx", canonExpr(x), ok, fmt.Sprintf("cannot show 0 ≤ %s < %s (len of %s)", e.LinStr(idx), e.LinStr(b.Len), b.Name))
-			set(x, PtrV{Key: b.Name + "[" + idx.Key() + "]", Arr: b.Name, Idx: idx, T: x.Type().(*types.Pointer).Elem()})
-		default:
-			e.Check(st, fr, x.Pos(), "B-idx", canonExpr(x), false, "unknown slice/array base")
-			set(x, e.unk())
 		}
+		e.indexAddr(st, fr, x, idx, iok)
 	case *ssa.Index:
 		idx, iok := e.asInt(st, e.val(st, fr, x.Index))
 		switch s := e.val(st, fr, x.X).(type) {
@@ -118,6 +118,24 @@ func (e *Engine) exec(st *State, fr *Frame, instr ssa.Instruction) []*State {
 			if !iok {
 				set(x, e.freshOfType(st, x.Type(), "elem"))
 				break
+			}
+			// a row of a small constant table: one state per row
+			if sl, isTab := e.closedContainer(s.Ptr.Key); isTab && ok && len(sl.Elems) <= smallTable {
+				if k, isK := e.constIndex(st, idx, len(sl.Elems)); isK {
+					idx = K(k)
+				} else {
+					var out []*State
+					for k := 0; k < len(sl.Elems); k++ {
+						s2 := st.clone()
+						s2.addEQ(idx, K(int64(k)))
+						if !e.feasible(s2) {
+							continue
+						}
+						s2.vals[vkey{fr.id, x}] = e.loadPtr(s2, PtrV{Key: s.Ptr.Key + "[" + K(int64(k)).Key() + "]", Arr: s.Ptr.Key, Idx: K(int64(k)), T: x.Type()})
+						out = append(out, s2)
+					}
+					return out
+				}
 			}
 			set(x, e.loadPtr(st, PtrV{Key: s.Ptr.Key + "[" + idx.Key() + "]", Arr: s.Ptr.Key, Idx: idx, T: x.Type()}))
 		default:
@@ -724,4 +742,28 @@ func (e *Engine) maskAxioms(st *State, b ByteV) {
 			st.addLE(me.Idx.AddK(1), o.Idx)
 		}
 	}
+}
+
+// indexAddr executes &X[idx] on one state.
+func (e *Engine) indexAddr(st *State, fr *Frame, x *ssa.IndexAddr, idx Lin, iok bool) {
+	set := func(v ssa.Value, a AVal) { st.vals[vkey{fr.id, v}] = a }
+	switch b := e.val(st, fr, x.X).(type) {
+		case PtrV: // pointer to array
+			arr, isArr := b.T.Underlying().(*types.Array)
+			if !isArr {
+				e.Check(st, fr, x.Pos(), "B-idx", canonExpr(x), false, "unknown array base")
+				set(x, e.unk())
+				break
+			}
+			ok := iok && e.proveLE(st, K(0), idx) && e.proveLT(st, idx, K(arr.Len()))
+			e.Check(st, fr, x.Pos(), "B-idx", canonExpr(x), ok, fmt.Sprintf("cannot show 0 ≤ %s < %d", e.LinStr(idx), arr.Len()))
+			set(x, PtrV{Key: b.Key + "[" + idx.Key() + "]", Arr: b.Key, Idx: idx, T: arr.Elem()})
+		case SliceV:
+			ok := iok && e.proveLE(st, K(0), idx) && e.proveLT(st, idx, b.Len)
+			e.Check(st, fr, x.Pos(), "B-idx", canonExpr(x), ok, fmt.Sprintf("cannot show 0 ≤ %s < %s (len of %s)", e.LinStr(idx), e.LinStr(b.Len), b.Name))
+			set(x, PtrV{Key: b.Name + "[" + idx.Key() + "]", Arr: b.Name, Idx: idx, T: x.Type().(*types.Pointer).Elem()})
+		default:
+			e.Check(st, fr, x.Pos(), "B-idx", canonExpr(x), false, "unknown slice/array base")
+			set(x, e.unk())
+		}
 }
